@@ -392,3 +392,6 @@ PLAN["C15"]["units"] = PLAN["C15"]["units"] + [ATG + "_handle", TTG + "_handle"]
 PLAN["C08"]["units"] = PLAN["C08"]["units"] + [ATG + "TaskGroup.spawn_app", TTG + "TaskGroup.spawn_app"]
 # C16: StreamBuffer's events are cleared only by the task that waits on them (trio's clear() replaces the event)
 PLAN["C16"]["units"] = PLAN["C16"]["units"] + [SB + m for m in ("pop", "push", "close", "set_complete", "drain")]
+# C07 "once ... the server has decided to close, the connection's handler finishes": every stream is
+# closed when the protocol is told Closed, however often and from whichever side it is told
+PLAN["C07"]["units"] = PLAN["C07"]["units"] + [HP + "handle"]
